@@ -1,7 +1,7 @@
 (* Tree/Refs.v — C05 definitions: the invariant bundle on the reference_origins maps, the broken-reference predicate
    that the invalid-reference report has to compute, finding and pending classes.
    (RefSet / RefsExact / OriginsTidy are in Tree/Index.v.)  DEFINITIONS ONLY. *)
-From AV Require Import Base.Bytes Base.Outcome Hash.HashModel Tree.Heap Tree.Ops Tree.Script Tree.Index.
+From AV Require Import Base.Bytes Base.Outcome Hash.HashModel Tree.Heap Tree.Ops Tree.Script Tree.Index Tree.Follow.
 Open Scope string_scope.
 Open Scope list_scope.
 Open Scope N_scope.
@@ -72,7 +72,10 @@ Definition Known05 (w : world) (o : op) : bool :=
     | Val (ER _, w') => negb (all_origins_eqb (w_models w) (w_models w'))
     | _ => false
     end
-  | OpMove _ mv | OpMoveAt _ mv _ =>
+  | OpMove h mv | OpMoveAt h mv _ =>
+    (* K04-move-container (finding C04-move-container-duplicates-paths): a non-identifiable container is moved and an
+       identifiable element it holds gets a path that is already in the index (no uniqueness check on this route) *)
+    (negb (identifiable T w mv) && collision06 T w h mv) ||
     match run_op T tab_el tab_en check_fn LATEST root_attrs o w with
     | Val (ER _, w') => negb (plink_eqb w w' mv)
     | _ => false
@@ -95,16 +98,24 @@ Definition Pending45 (w : world) (o : op) : bool :=
   end.
 
 (* the refined list: a move inside one model whose moved element is identifiable is covered *)
-Definition simple_move (w : world) (h mv : id) : bool :=
-  identifiable T w mv &&
+Definition same_model (w : world) (h mv : id) : bool :=
   match model_of h w, model_of mv w with
   | Val (OK m1, _), Val (OK m2, _) => m1 =? m2
   | _, _ => false
   end.
+Definition simple_move (w : world) (h mv : id) : bool := identifiable T w mv && same_model w h mv.
 Definition Pending45m (w : world) (o : op) : bool :=
   match o with
   | OpCopy _ _ | OpCopyAt _ _ _ => true
   | OpMove h mv | OpMoveAt h mv _ => negb (simple_move w h mv)
+  | _ => false
+  end.
+
+(* second refinement: every move inside one model is covered (containers too) *)
+Definition Pending45x (w : world) (o : op) : bool :=
+  match o with
+  | OpCopy _ _ | OpCopyAt _ _ _ => true
+  | OpMove h mv | OpMoveAt h mv _ => negb (same_model w h mv)
   | _ => false
   end.
 
